@@ -53,6 +53,7 @@ type Contract struct {
 	Opaque     map[string]bool // predicates kept as atoms inside this function\'s proof (opaque / reveal)
 	Asserts    []AssertClause // mid-function assertions (proved, then assumed) after the k-th call of a callee
 	Hybrid     bool
+	Uses       []string // axioms assumed at entry
 	Ghosts     []GhostVar
 	GhostUpd   []GhostUpdate
 }
@@ -103,6 +104,7 @@ type SpecFn struct {
 	Rec     bool
 	Unfolds int
 	PkgPath string
+	Reads   []string // heaps an uninterpreted function depends on: Struct.field, map[K]V
 }
 
 type Lemma struct {
@@ -115,7 +117,18 @@ type Lemma struct {
 	Uses []string
 }
 
+// Axiom: a definitional axiom of an uninterpreted spec function (assumed, listed in the evidence).
+type Axiom struct {
+	Name    string
+	Expr    *Expr
+	Src     string
+	File    string
+	Line    int
+	PkgPath string
+}
+
 type ContractDB struct {
+	Axioms  map[string]*Axiom
 	Funcs   map[string]*Contract
 	Specs   map[string]*SpecFn
 	Lemmas  []*Lemma
@@ -134,9 +147,9 @@ const modulePath = "github.com/streamingfast/substreams"
 var tagRe = regexp.MustCompile(`\[(C[0-9]+(?:,\s*C[0-9]+)*)\]`)
 
 var clauseKeywords = map[string]bool{"requires": true, "ensures": true, "xensures": true, "panics_if": true, "modifies": true,
-	"loop": true, "arith": true, "trusted": true, "inline": true, "nosafety": true, "pure": true, "fresh": true, "assume": true, "ghost_exit": true, "opaque": true, "assert": true, "ghost": true, "quantifiers": true}
+	"loop": true, "arith": true, "trusted": true, "inline": true, "nosafety": true, "pure": true, "fresh": true, "assume": true, "ghost_exit": true, "opaque": true, "assert": true, "ghost": true, "quantifiers": true, "uses": true}
 
-var topKeywords = map[string]bool{"ghostfield": true, "func": true, "spec": true, "pred": true, "lemma": true, "purepkg": true, "const": true, "uninterp": true}
+var topKeywords = map[string]bool{"axiom": true, "ghostfield": true, "func": true, "spec": true, "pred": true, "lemma": true, "purepkg": true, "const": true, "uninterp": true}
 
 type rawLine struct {
 	text string
@@ -231,9 +244,14 @@ func (db *ContractDB) LoadFile(path string, trusted bool, pkgPath string) error 
 			if len(fl) < 2 || !strings.Contains(fl[0], ".") {
 				return fmt.Errorf("%s:%d: ghostfield Struct.name type", path, it.line)
 			}
+			gp := pkgPath
+			if k := strings.Index(fl[0], "::"); k >= 0 {
+				gp = fl[0][:k]
+				fl[0] = fl[0][k+2:]
+			}
 			i := strings.Index(fl[0], ".")
-			g := &GhostField{Struct: fl[0][:i], Name: fl[0][i+1:], Type: strings.Join(fl[1:], " "), PkgPath: pkgPath}
-			db.Ghosts[pkgPath+"."+g.Struct+"."+g.Name] = g
+			g := &GhostField{Struct: fl[0][:i], Name: fl[0][i+1:], Type: strings.Join(fl[1:], " "), PkgPath: gp}
+			db.Ghosts[gp+"."+g.Struct+"."+g.Name] = g
 		case "purepkg":
 			for _, p := range strings.Fields(rest) {
 				db.PurePkg[p] = true
@@ -256,6 +274,21 @@ func (db *ContractDB) LoadFile(path string, trusted bool, pkgPath string) error 
 				return fmt.Errorf("%s:%d: duplicate spec function %s", path, it.line, sf.Name)
 			}
 			db.Specs[sf.Name] = sf
+		case "axiom":
+			i := strings.Index(rest, ":")
+			if i < 0 {
+				return fmt.Errorf("%s:%d: axiom needs ':'", path, it.line)
+			}
+			name := strings.TrimSpace(rest[:i])
+			src := strings.TrimSpace(rest[i+1:])
+			e, err := ParseExpr(src)
+			if err != nil {
+				return fmt.Errorf("%s:%d: %v", path, it.line, err)
+			}
+			if db.Axioms == nil {
+				db.Axioms = map[string]*Axiom{}
+			}
+			db.Axioms[name] = &Axiom{Name: name, Expr: e, Src: src, File: path, Line: it.line, PkgPath: pkgPath}
 		case "lemma":
 			tags, r := extractTags(rest)
 			i := strings.Index(r, ":")
@@ -449,6 +482,10 @@ func (c *Contract) addClause(p rawLine, path string) error {
 			return fmt.Errorf("arith pragma must be wrapping, checked or mathematical")
 		}
 		c.Arith = rest
+	case "uses":
+		for _, n := range strings.FieldsFunc(rest, func(r rune) bool { return r == ',' || r == ' ' }) {
+			c.Uses = append(c.Uses, n)
+		}
 	case "quantifiers":
 		// quantifiers solver: flat universal hypotheses are handed to the solver (E-matching) before
 		// the generator-instantiated script is tried
@@ -540,6 +577,12 @@ func parseSpecFn(kind, rest string) (*SpecFn, error) {
 		body = strings.TrimSpace(tail[k+2:])
 	} else {
 		sf.Ret = tail
+	}
+	if k := strings.Index(sf.Ret, " reads "); k >= 0 {
+		for _, r := range splitTopLevel(sf.Ret[k+7:], ',') {
+			sf.Reads = append(sf.Reads, strings.TrimSpace(r))
+		}
+		sf.Ret = strings.TrimSpace(sf.Ret[:k])
 	}
 	if strings.HasPrefix(sf.Ret, "rec ") {
 		sf.Rec = true
